@@ -66,6 +66,12 @@ BundleRT ==
   /\ Chk("C18", "bundle-gives-back-byte-identical-changes", E.res = "ok" /\ E.mem_ok /\ E.bytes_ok)
   /\ Chk("C18", "loading-a-bundle-equals-applying-its-changes", E.res = "ok" /\ E.load_ok)
 
+(* C20 on long histories (a common prefix of 0-43 changes, divergent suffixes of 0-50 changes by several actors,
+   local edits during the first three rounds): quiet within 24 rounds, same heads, same saved document *)
+SyncLong ==
+  /\ E.ev = "synclong"
+  /\ Chk("C20", "long-histories-go-quiet-and-converge", E.res = "ok" /\ E.quiet /\ E.converged /\ E.same)
+
 IdRT ==
   /\ E.ev = "idrt"
   /\ Chk("C19", "ids-cursors-actors-hashes-round-trip", Len(E.bad) = 0)
@@ -104,9 +110,9 @@ Cli ==
   /\ Chk("C33", "cli-import-and-export-succeed", E.res = "ok")
   /\ Chk("C33", "exported-json-equals-imported-json-with-number-kinds", E.same)
 
-Other == E.ev \notin {"bundlert", "cli", "bloomvec", "bloomset", "chgrt", "idrt", "syncrt", "wire", "wirebad", "hexbad", "hexagg"}
+Other == E.ev \notin {"synclong", "bundlert", "cli", "bloomvec", "bloomset", "chgrt", "idrt", "syncrt", "wire", "wirebad", "hexbad", "hexagg"}
 
-Step == l <= Len(Rec) /\ l' = l + 1 /\ (BloomVec \/ BloomSet \/ ChgRT \/ BundleRT \/ IdRT \/ SyncRT \/ WireAgg \/ WireBad \/ HexBad \/ HexAgg \/ Cli \/ Other)
+Step == l <= Len(Rec) /\ l' = l + 1 /\ (BloomVec \/ BloomSet \/ ChgRT \/ BundleRT \/ SyncLong \/ IdRT \/ SyncRT \/ WireAgg \/ WireBad \/ HexBad \/ HexAgg \/ Cli \/ Other)
 Init == l = 1
 Spec == Init /\ [][Step]_l
 
